@@ -191,6 +191,25 @@ fn scripts(seed: u64, count: usize, no_type1: bool) -> Vec<Vec<Op>> {
         for k in 0..6u32 { let video = k % 2 == 0; sc.push(Op::Send { m: Msg { ts: 40 * k, ty: if video { 9 } else { 8 }, msid: 1, data: payload(if video { 200 } else { 16 }, k as u8) }, force: false, dropp: video && (mask >> (k / 2)) & 1 == 1 }); }
         v.push(sc);
     }
+    // constant-size, constant-rate MULTI-CHUNK messages on one chunk stream (format 3 then starts a message that is split), interleaved
+    // with messages on another chunk stream whose timestamp field lies on the other side of the 0xFFFFFF threshold: whether a
+    // continuation chunk carries an extended timestamp must depend on ITS chunk stream only
+    for &step in &[23u32, 0xFFFFFF, 0x1000000] { for &vts in &[5u32, 0xFFFFFE, 0xFFFFFF, 0x1000000, 0x7FFFFFFF] { for &vl in &[16usize, 200] { for &vforce in &[false, true] {
+        let mut sc = vec![];
+        for k in 0..5u32 {
+            sc.push(Op::Send { m: Msg { ts: 1000u32.wrapping_add(step.wrapping_mul(k)), ty: 8, msid: 1, data: payload(300, k as u8) }, force: false, dropp: false });
+            sc.push(Op::Send { m: Msg { ts: vts.wrapping_add(k * if vforce { 0 } else { 40 }), ty: if k % 2 == 0 { 9 } else { 18 }, msid: 1, data: payload(vl, 100 + k as u8) }, force: vforce, dropp: false });
+        }
+        v.push(sc);
+    } } } }
+    // MANY message streams on one connection (every one sends audio and video, then the first ones speak again): the chunk stream a
+    // message goes out on must stay decodable whatever number of message streams the serializer has seen
+    for &n in &[3u32, 29, 30, 31, 70] { for &base in &[1u32, 0x7FFFFFF0, 0xFFFFFF00] {
+        let mut sc = vec![];
+        for k in 0..n { for ty in [8u8, 9] { sc.push(Op::Send { m: Msg { ts: 10 * k, ty, msid: base.wrapping_add(k), data: payload(if ty == 9 { 140 } else { 9 }, k as u8) }, force: false, dropp: false }); } }
+        for k in 0..3u32 { sc.push(Op::Send { m: Msg { ts: 10 * n + k, ty: 9, msid: base.wrapping_add(k), data: payload(140, 200 + k as u8) }, force: false, dropp: false }); }
+        v.push(sc);
+    } }
     for _ in 0..count { let n = 2 + (rng.next() % 6) as usize; v.push(gen_script(&mut rng, n, true)); }
     let _ = no_type1;
     v
